@@ -1,6 +1,6 @@
 (* ParseRun.v — run commands of the C05 family (drivers only). *)
 From Coq Require Import String.
-From Cedar Require Export Codec Unescape.
+From Cedar Require Export Codec Unescape Print.
 Open Scope string_scope.
 
 Definition e_ures {A} (f : A -> sexp) (r : ures A) : sexp :=
@@ -26,6 +26,28 @@ Definition run_c05_escape (args : list sexp) : sexp :=
   | _ => bad_input
   end.
 
+(* (c05_print_expr <np> <ge> <expr>)  /  (c05_print_template <np> <ge> <template>) *)
+Definition run_c05_print_expr (args : list sexp) : sexp :=
+  match args with
+  | [np; ge; e] =>
+      match d_list d_N np, d_list d_N ge, d_expr e with
+      | Some np, Some ge, Some e => SS (show_expr (in_set np) (in_set ge) e)
+      | _, _, _ => bad_input
+      end
+  | _ => bad_input
+  end.
+Definition run_c05_print_template (args : list sexp) : sexp :=
+  match args with
+  | [np; ge; t] =>
+      match d_list d_N np, d_list d_N ge, d_template t with
+      | Some np, Some ge, Some t => SS (show_template (in_set np) (in_set ge) t)
+      | _, _, _ => bad_input
+      end
+  | _ => bad_input
+  end.
+
 Definition run_c05 (cmd : string) (args : list sexp) : option sexp :=
   if sym_eqb cmd "c05_escape" then Some (run_c05_escape args)
+  else if sym_eqb cmd "c05_print_expr" then Some (run_c05_print_expr args)
+  else if sym_eqb cmd "c05_print_template" then Some (run_c05_print_template args)
   else None.
